@@ -469,7 +469,8 @@ func genCase(o opts) func(rt *rapid.T) Case {
 			if o.ext == "entities" && s.k == kString {
 				// predefined entities at the start, in the middle and at the end of the value
 				ent := func(l string) string {
-					return rapid.SampledFrom([]string{"&amp;", "&lt;", "&gt;", "&quot;", "&apos;"}).Draw(rt, l)
+					// (the last five are escaped text that itself looks like an entity: they stand for "&lt;", "&amp;" ... literally)
+					return rapid.SampledFrom([]string{"&amp;", "&lt;", "&gt;", "&quot;", "&apos;", "&amp;lt;", "&amp;amp;", "&amp;gt;", "&amp;quot;", "&amp;apos;"}).Draw(rt, l)
 				}
 				switch rapid.IntRange(0, 3).Draw(rt, "entpos") {
 				case 0:
